@@ -288,7 +288,40 @@ async def prog_goaway(flavor, p):
     return {"out": [run.kind, {k: norm_outcome(o) for k, o in sorted(outs.items())}], "wire": wire, "transports": n_tr}
 
 
-PROGS = {"goaway": prog_goaway, "upload": prog_upload, "nested": prog_nested, "response": prog_response, "fault": prog_fault, "history": prog_history, "handover": prog_handover,
+async def prog_settings(flavor, p):
+    """Sequential requests on one HTTP/2 connection whose server changes MAX_CONCURRENT_STREAMS between them (the two
+    variants use different semaphore classes: the async one is bounded)."""
+    from . import c14
+    from ..scenarios import Sc
+    from ..world import guarded
+    from .. import runners
+    sc = Sc("h2", flavor, max_connections=1, resp_delay=1.0)   # (the SETTINGS exchanges complete while the response is awaited)
+    vals = p["values"]
+    script = {"data_chunk": 1000, "settings": {3: vals[0]},
+              # all further changes arrive while ONE request (the second) is in flight: nothing is acquired or released
+              # in between, so slots withdrawn by a decrease are still outstanding when the next change is handled
+              "actions": [{"when": ("head" if i % 2 == 0 else "end", 1), "do": "settings", "settings": {3: x}}
+                          for i, x in enumerate(vals[1:])]}
+    for o in sc.origins:
+        o.h2_script = dict(script)
+    sc.net.op_budget = 12000
+    outs = {}
+
+    async def body():
+        for i in range(4):
+            try:
+                outs[f"c{i}"] = runners.Outcome("ok", await c14.one_call(sc, "get" if i != 1 else "post-iter", f"c{i}"))
+            except Exception as exc:  # noqa
+                outs[f"c{i}"] = runners.Outcome("exc", exc=exc)
+        return True
+    run = await guarded(flavor, body)
+    n_tr = len(sc.net.transports)
+    state = [norm_text(c.info()) for c in sc.pool.connections]
+    await guarded(flavor, sc.api.close_pool)
+    return {"out": [run.kind, {k: norm_outcome(o) for k, o in sorted(outs.items())}], "transports": n_tr, "state": state}
+
+
+PROGS = {"settings": prog_settings, "goaway": prog_goaway, "upload": prog_upload, "nested": prog_nested, "response": prog_response, "fault": prog_fault, "history": prog_history, "handover": prog_handover,
          "proxy": prog_proxy, "mutated": prog_mutated}
 
 
@@ -517,6 +550,8 @@ def plan(tier, seed):
         for after in (0, 5, 64):
             for cut in (None, 10, 40, 60):
                 progs.append(["handover", {"kind": kind, "status": st, "after": after, "cut": cut, "sizes": r.choice([[65536], [1], [3, 7]])}])
+    for vals in ([100, 10, 100], [60, 10, 60], [100, 1, 50], [8, 2, 8], [1, 100, 1, 100], [200, 50, 200]):
+        progs.append(["settings", {"values": vals}])
     for shape in ("get", "post-bytes", "post-iter", "post-once"):
         for when in ("head", "end"):
             for n in (0, 1, 2):
